@@ -775,7 +775,38 @@ func (g *gen) nodeArg(name string) *nodeArg {
 func (g *gen) pattern() {
 	r := g.r
 	cp := func(o *op) *op { c := *o; c.Impl = nil; return &c }
-	switch r.Intn(3) {
+	switch r.Intn(6) {
+	case 3: // unknown workload: status without ttl (accepted), then the IDENTICAL status with a ttl (must be refused)
+		id := hx.Pick(r, wlsU...)
+		h := g.home[id]
+		st := &op{Op: "setWorkloadStatus", Name: id, App: h.app, Entry: h.entry, Nodename: h.node, Running: r.Chance(50), Healthy: r.Chance(50), TTL: 0}
+		st2 := cp(st)
+		st2.TTL = int64(hx.Pick(r, 3, 5, 30))
+		g.pending = append(g.pending, &op{Op: "removeWorkload", Wl: &wlArg{ID: id, Name: h.app + "_" + h.entry + "_x" + id, Node: h.node}},
+			st, st2, &op{Op: "tick", D: int64(hx.Pick(r, 1, 6))})
+	case 4: // more adds under a marker than it counts (also markers created with count 0)
+		c := r.Range(0, 2)
+		pr := &procArg{App: hx.Pick(r, appsU...), Entry: hx.Pick(r, entryU...), Node: hx.Pick(r, "n1", "n1x"), Ident: hx.Pick(r, identsU...)}
+		g.pending = append(g.pending, &op{Op: "deleteProcessing", Proc: pr}, &op{Op: "createProcessing", Proc: pr, Count: c})
+		perm := append([]string{}, wlsU...)
+		hx.Shuffle(r, perm)
+		for _, id := range perm[:c+1] {
+			g.img++
+			w := &wlArg{ID: id, Name: pr.App + "_" + pr.Entry + "_x" + id, Node: pr.Node, Image: fmt.Sprintf("img%d", g.img)}
+			g.pending = append(g.pending, &op{Op: "removeWorkload", Wl: w}, &op{Op: "addWorkload", Wl: w, Proc: pr})
+		}
+		g.pending = append(g.pending, &op{Op: "getDeployStatus", App: pr.App, Entry: pr.Entry}, &op{Op: "getWorkloads", Names: perm[:c+1]})
+	case 5: // changed value with the SAME ttl part-way through the lifetime, read between the old and the new deadline
+		id := hx.Pick(r, wlsU...)
+		h := g.home[id]
+		ttl := int64(hx.Pick(r, 5, 6, 10))
+		st := &op{Op: "setWorkloadStatus", Name: id, App: h.app, Entry: h.entry, Nodename: h.node, Running: true, Healthy: false, TTL: ttl}
+		st2 := cp(st)
+		st2.Healthy = true
+		g.img++
+		g.pending = append(g.pending, &op{Op: "addWorkload", Wl: &wlArg{ID: id, Name: h.app + "_" + h.entry + "_x" + id, Node: h.node, Image: fmt.Sprintf("img%d", g.img)}},
+			st, &op{Op: "tick", D: ttl - 2}, st2, &op{Op: "tick", D: 3}, &op{Op: "getWorkloads", Names: []string{id}},
+			&op{Op: "tick", D: ttl - 3}, &op{Op: "getWorkloads", Names: []string{id}})
 	case 0: // heartbeat (same value, same ttl) after the node was removed
 		nm := hx.Pick(r, nodesU...)
 		st := &op{Op: "setNodeStatus", Node: &nodeArg{Name: nm, Pod: g.npod[nm]}, TTL: int64(hx.Pick(r, 3, 5))}
@@ -809,7 +840,7 @@ func (g *gen) next() *op {
 		return o
 	}
 	w := r.Intn(100)
-	if g.c25 && r.Chance(6) {
+	if (g.c25 && r.Chance(6)) || (!g.c25 && r.Chance(3)) {
 		g.pattern()
 		return g.next()
 	}
@@ -921,6 +952,10 @@ func (g *gen) again() *op {
 	}
 	o := *g.lastS[g.r.Intn(len(g.lastS))]
 	o.Impl = nil
+	if o.Op == "setWorkloadStatus" && g.r.Chance(25) { // another value, same ttl
+		o.Healthy = !o.Healthy
+		return &o
+	}
 	if g.r.Chance(35) { // same value, another ttl (shorter, longer, none)
 		if o.Op == "setNodeStatus" {
 			o.TTL = int64(hx.Pick(g.r, 2, 3, 5))
@@ -1101,6 +1136,26 @@ func corpus() []*kase {
 			{Op: "getDeployStatus", App: "a1x", Entry: "e1"},
 			{Op: "listWorkloads", App: "a1", Entry: "e1", Nodename: "n1"}, {Op: "listWorkloads", App: "a1", Entry: "e1"},
 			{Op: "listNodeWorkloads", Nodename: "n1"},
+		}},
+		// round-3 witnesses: identical status first without then with ttl for an unknown workload; marker
+		// driven below zero; changed value on the same ttl part-way through the lease
+		{ID: "corpus-r3", Kind: "seq", Ops: []*op{
+			{Op: "setWorkloadStatus", Name: "w9", App: "a1", Entry: "e1", Nodename: "n1", TTL: 0, Running: true},
+			{Op: "setWorkloadStatus", Name: "w9", App: "a1", Entry: "e1", Nodename: "n1", TTL: 30, Running: true},
+			{Op: "tick", D: 31},
+			{Op: "createProcessing", Proc: &procArg{App: "a1", Entry: "e1", Node: "n1", Ident: "i1"}, Count: 1},
+			{Op: "addWorkload", Wl: w("w1", "n1"), Proc: &procArg{App: "a1", Entry: "e1", Node: "n1", Ident: "i1"}},
+			{Op: "addWorkload", Wl: w("w2", "n1"), Proc: &procArg{App: "a1", Entry: "e1", Node: "n1", Ident: "i1"}},
+			{Op: "getDeployStatus", App: "a1", Entry: "e1"},
+			{Op: "createProcessing", Proc: &procArg{App: "a1", Entry: "e1", Node: "n1", Ident: "i2"}, Count: 0},
+			{Op: "addWorkload", Wl: w("w3", "n1"), Proc: &procArg{App: "a1", Entry: "e1", Node: "n1", Ident: "i2"}},
+			{Op: "getDeployStatus", App: "a1", Entry: "e1"},
+			{Op: "setWorkloadStatus", Name: "w1", App: "a1", Entry: "e1", Nodename: "n1", TTL: 6, Running: true},
+			{Op: "tick", D: 4},
+			{Op: "setWorkloadStatus", Name: "w1", App: "a1", Entry: "e1", Nodename: "n1", TTL: 6, Running: true, Healthy: true},
+			{Op: "tick", D: 4}, {Op: "addPod", Name: "p1"}, {Op: "addNode", Node: &nodeArg{Name: "n1", Pod: "p1", Endpoint: "mock://n1"}},
+			{Op: "getWorkloads", Names: []string{"w1"}},
+			{Op: "tick", D: 2}, {Op: "getWorkloads", Names: []string{"w1"}},
 		}},
 		// a node status heartbeat (same value, same ttl) after the node was removed must be rejected;
 		// same value with a shorter ttl / without ttl must replace the lifetime
